@@ -25,7 +25,7 @@ class C13(Prop):
     ID = 'C13'
     CORRESPONDENCE = 'PlaybackModel.Equalizer.runFrom/finish (worker epochs, tasks per worker, live processes) vs Equalizer.run_comparison'
     RULE = ('one case = one sequence of 2-8 recordings with hangs / worker deaths / late answers / results the parent cannot read back at chosen positions (first, '
-            'last, consecutive, recycle boundaries), recycle rate 0-4, time-out 0.5-2 s, consumed completely, closed after k or '
+            'last, consecutive, recycle boundaries), recycle rate 0-4, time-out 0.5-2 s, consumed completely, closed after k (once after a consumer pause of 6.6 s with an idle worker) or '
             'aborted by a consumer exception after k, on the real Equalizer with real worker processes; non-trivial = at least '
             'one fault or an early end; distinct = distinct canonical case')
     TRUSTED = ['correspondence harness harness/props/c13.py + harness/equalizer_runner.py + Lean driver (Drive/Equalizer.lean)',
@@ -63,6 +63,8 @@ class C13(Prop):
         add(['late', v, v], 2, 0.5, ['raise', 2])
         add(['hang', 'hang', v], 0, 0.5, ['all'])
         add([v, v, v, v, v], 4, 0.5, ['close', 5])
+        # a consumer that pauses for several seconds (its worker idle all the while) and then abandons the run
+        add([v, v, v], 3, 0.5, ['close', 1, 6.6])
         # hangs of a player that made its process immune to SIGTERM (graceful-shutdown handler / SIG_IGN): same behaviour
         # for the model, but only a real SIGKILL gets rid of the worker - first, middle + consecutive, last, early end
         hi, hh = 'hangTermIgnored', 'hangTermHandled'
